@@ -61,6 +61,28 @@ def run(v):
                 c["arg0"] = n
                 w.write(json.dumps(c) + "\n")
                 n += 1
+    # completion requests as the shell scripts make them (`app --bpaf-complete-rev=N words.. partial`): whatever the
+    # partial word is - also bytes that are not text - the answer is completion output on stdout with status 0
+    with open(sel, "a") as w:
+        oks = [c for cs in by.values() for c in cs if c["expect"]["class"] == "ok" and not c.get("outside")]
+        rnd.shuffle(oks)
+        for c in oks[: (150 if v.tier == "quick" else 1500)]:
+            words = [i["txt"] for i in c["line"]]
+            words = words[: rnd.randint(0, len(words))]
+            if "--" in words:
+                continue
+            part = rnd.choice(["", "-", "--", "x"])
+            rev = rnd.choice([1, 7, 8, 9])
+            # a word that is not text is still a word being completed when it is the value of an argument that takes
+            # arbitrary bytes (OsString / PathBuf)
+            osargs = [it for it in dmap[c["def"]]["named"] if it["kind"] == "arg" and it["vt"] in ("os", "path") and not it.get("adj")]
+            if osargs and rnd.random() < 0.5:
+                it = osargs[0]
+                words = [(it["longs"] + it["shorts"])[0]]
+                part = rnd.choice(["caf%E9", "%FF", "J%F6rg"])
+            w.write(json.dumps({"def": c["def"], "argv": [f"--bpaf-complete-rev={rev}"] + words + [part], "env": {},
+                                "expect": {"class": "completion"}, "arg0": n, "outside": False}) + "\n")
+            n += 1
     trace = os.path.join(WORK, f"C11-{v.tier}-trace.ndjson")
     r = subprocess.run([hbin, "proc", "--defs", dpath, "--cases", sel, "--app", app, "--out", trace],
                        text=True, capture_output=True, timeout=3600)
@@ -87,6 +109,11 @@ def run(v):
                            "got": {"events": rec["events"]}})
     if not t["ok"]:
         raise ToolError("ProcessTrace did not complete:\n" + t["tail"])
+    # which outcome class a run ends in depends on the ledger's bookkeeping (`fallback_to_usage` asks whether anything is
+    # left): generic trees with choices, commands and `fallback_to_usage` run with the hooks on, judged by LedgerTrace
+    from cmdline_check import run_protocol_only
+    from checks.c04 import wild_defs
+    pcov = run_protocol_only(v, wild_defs(SEED + 114, 60 if v.tier == "quick" else 300), 6000 if v.tier == "quick" else 100000, "C11w")
     classes = {}
     samples = []
     for rec in read_ndjson(trace):
@@ -96,7 +123,7 @@ def run(v):
                             "events": [e["e"] + (":" + str(e.get("code")) if e["e"] == "exit" else "") for e in rec["events"]]})
     cov = {"evaluations": runs, "distinct_nontrivial": runs - classes.get("stderr", 0) // 2, "samples": samples,
            "definitions": len(fam), "predicted_classes": classes, "design_states": dr["distinct"],
-           "traces_validated_against_impl": runs, "rejected_runs": rejected,
+           "traces_validated_against_impl": runs, "rejected_runs": rejected, **pcov,
            "rule": "a seeded sample of the specification's (definition, line) cases executed as a real process (argv through execve, "
                    "argv[0] in {plain, with directories, with dots, non-UTF-8}); each run's events validated by TLC against "
                    "Process.tla with the in-process prediction; distinct = distinct (definition, argv, argv[0]) triples, "
